@@ -90,7 +90,9 @@ impl ErrKind {
             ErrKind::BrokenPipe => libc::EPIPE,
             ErrKind::PermissionDenied => libc::EACCES,
             ErrKind::WouldBlock => libc::EAGAIN,
-            _ => return self.error(),
+            // no errno for this kind: deliver it as an adapter-style *wrapped* error instead — the payload is itself
+            // an io::Error of another kind; the kind of the error the source returned is still the outer one
+            _ => return io::Error::new(self.to_io(), io::Error::from(io::ErrorKind::ConnectionReset)),
         };
         io::Error::from_raw_os_error(errno)
     }
